@@ -185,9 +185,11 @@ var durSpelling = map[string]string{"1000000000": "1s", "3600000000000": "1h"}
 
 // text styles: 0 = one space between all tokens; 1 = compact (spaces only around the
 // word operators and after commas never); 2 = newline + indentation after every binary
-// operator (MultiLine); 3 = tabs and double spaces.
+// operator (MultiLine); 3 = tabs and double spaces; 4 = a newline BEFORE the first binary
+// operator only; 5 = a newline before every binary operator.
 func render(ts []tok, style int) string {
 	var b strings.Builder
+	seenBreak := false
 	for i, t := range ts {
 		s := spell(t)
 		if i > 0 {
@@ -210,6 +212,14 @@ func render(ts []tok, style int) string {
 					b.WriteString("\t")
 				} else {
 					b.WriteString("  ")
+				}
+			case 4, 5:
+				// operator-leading line breaks: before the first binary operator only (4) / before every one (5)
+				if t[0] == "op" && endsOperand(prev) && (style == 5 || !seenBreak) {
+					b.WriteString("\n        ")
+					seenBreak = true
+				} else {
+					b.WriteString(" ")
 				}
 			}
 		}
